@@ -1,7 +1,7 @@
 package main
 
 import (
-	"fmt"
+	"os"
 	"verif/checker/internal/refl"
 	"verif/checker/internal/core"
 )
@@ -10,15 +10,5 @@ func main() {
 	c := core.NewCtx("/repo", "quick", "X", 0)
 	defer c.Cleanup()
 	if err := c.Load(); err != nil { panic(err) }
-	refl.RunPure(c)
-	ok, bad := 0, 0
-	cnt := map[string]int{}
-	seen := map[string]bool{}
-	for _, o := range c.Obligations() {
-		if o.Status == core.OK { ok++; continue }
-		bad++
-		cnt[o.Rule]++
-		if !seen[o.Detail] && len(seen) < 25 { seen[o.Detail] = true; fmt.Println(o.Status, o.Rule, o.Construct, "::", o.Detail, o.Pos) }
-	}
-	fmt.Println("ok", ok, "bad", bad, cnt, c.Stats)
+	refl.DumpAcc(c, os.Args[1])
 }
